@@ -21,133 +21,133 @@ var plans = map[string]plan{
 		Rule:     "case = (requested type, input bytes) run through all 5 skipping facilities (7 configurations); inputs: bounded-exhaustive strings over a 15-symbol grammar alphabet, mutated valid encodings (truncate/substitute/size-window/splice/insert/delete), huge size fields, nesting 1..70 per container kind and through every entry position, size fields 0x7fffffff..0xffffffff really followed by that many (untouched, mapped) bytes, a follow-up call on the same decoder after every rejection. Non-trivial iff the oracle rejects the input or accepts it with nesting >= 2; distinct by (type, bytes).",
 		Required: []string{"oracle-accept judged", "oracle-reject judged", "nesting>=65 cases"},
 		Quick:    []job{{"plain", 8}},
-		Thorough: []job{{"plain", 16}, {"race", 4}, {"go126", 4}, {"fuzz", 3}},
+		Thorough: []job{{"gcstress", 4}, {"plain", 16}, {"race", 4}, {"go126", 4}, {"fuzz", 3}},
 	},
 	"C02": {
 		Level:    "exploration",
 		Rule:     "case = 1..3 well-formed values (generated typed trees) back-to-back + 0..64 trailing bytes on ONE instance of each skipper, under one of 6 fragmentation schedules, optionally with the final data delivered together with io.EOF; plus the full container x key-type x value-type x size grid under all schedules, nesting 1..63 for every container kind, strings around the 4096/8192 boundaries, multi-megabyte values incl. release-after-huge-value histories with co-tenants of the buffer pool. Non-trivial iff a value has nesting >= 2, or is a container > 20 bytes, or is > 4096 bytes; distinct by (value shapes, bytes, trailing length, schedule, eof mode).",
 		Required: []string{"values skipped", "reader-skip-decoder values", "grid combinations", "long-string cases"},
 		Quick:    []job{{"plain", 8}},
-		Thorough: []job{{"plain", 16}, {"race", 4}},
+		Thorough: []job{{"gcstress", 4}, {"plain", 16}, {"race", 4}},
 	},
 	"C03": {
 		Level:    "exploration",
 		Rule:     "case = input bytes run through every buffer-based decoding entry point (23 + Binary.Skip/BytesSkipDecoder for several requested type bytes) at two guard-page placements (input ends at / starts after a PROT_NONE page). Inputs: all strings of length <= 2, grammar-alphabet strings, mutations/truncations/boundary substitutions of valid encodings of every shape (values, Base/BaseResp/exception structs, messages, unknown-field sequences, TTHeader frames), huge size fields. Non-trivial iff length >= 1 and (mutated valid encoding or alphabet string of length >= 3); distinct by bytes.",
 		Required: []string{"guarded decoder calls", "decoder successes", "decoder errors", "full truncation sweeps"},
 		Quick:    []job{{"plain", 8}},
-		Thorough: []job{{"plain", 16}, {"asan", 8}, {"race", 4}, {"go126", 4}, {"fuzz", 3}},
+		Thorough: []job{{"gcstress", 4}, {"plain", 16}, {"asan", 8}, {"race", 4}, {"go126", 4}, {"fuzz", 3}},
 	},
 	"C04": {
 		Level:    "fault_enumeration",
 		Rule:     "case = operation history over {Next,Peek,Skip,ReadBinary}x{0,1,7,4095,4096,4097,8193,20000} + Release (bounded-exhaustive to length 3/4 over these 33 symbols x 6 source behaviours; random to 300 steps incl. negative counts) x hostile source (chunk schedule, zero-byte reads, error kind, error position, error with/after the final data; every error position of every stream <= 64 bytes; endless zero-read source) for the io.Reader-backed and the bytes-backed reader. Every result is checked online against a cursor model over a position-coded stream. Non-trivial iff the history saw a growth (request > 4096 or > 1 pool malloc), a request spanning >= 2 source reads, a surfaced error, or a Release with an unread buffered tail; distinct by (ops, source behaviour, reader kind).",
 		Required: []string{"errors surfaced", "histories with growth", "releases with unread buffered tail", "errors delivered with data", "zero reads served", "error-position cases", "no-progress histories"},
 		Quick:    []job{{"plain", 8}, {"poison", 4}},
-		Thorough: []job{{"plain", 16}, {"poison", 8}},
+		Thorough: []job{{"gcstress", 4}, {"plain", 16}, {"poison", 8}},
 	},
 	"C05": {
 		Level:    "fault_enumeration",
 		Rule:     "case = operation history over {Malloc eager, Malloc lazily-filled, WriteBinary}x{0,1,3,4095,4096,4097,8193,20000} + Flush (bounded-exhaustive to length 3/4 over 25 symbols x 7 configurations; random to 180 steps) x sink behaviour (never fails / fails at the k-th Write for every k) x writer kind (io.Writer-backed; bytes-backed over nil / empty-with-capacity / partial / full initial slices). Regions get distinct content, lazily filled ones only right before Flush in shuffled order. Checked online against a region/concatenation model. Non-trivial iff >= 1 growth between flushes (> 4096 unflushed bytes), a lazily filled region, a sink failure or >= 2 flushes; distinct by (ops, configuration).",
 		Required: []string{"flushes", "histories with growth", "histories with lazily filled regions", "sink failures injected", "bytes-writer flushes judged", "fail-at-every-k histories"},
 		Quick:    []job{{"plain", 8}, {"poison", 4}},
-		Thorough: []job{{"plain", 16}, {"poison", 8}},
+		Thorough: []job{{"gcstress", 4}, {"plain", 16}, {"poison", 8}},
 	},
 	"C09": {
 		Level:    "exploration",
 		Rule:     "case = history that retains every slice handed out by Next/Peek (resp. every Malloc region) until Release/Flush while later requests force 0..6 growths, over the io.Reader-backed and bytes-backed reader/writer with caller buffers of power-of-two and other capacities; SkipDecoder runs retaining up to 200 results over a fragmenting source; ReaderSkipDecoder growth sequences. Configuration A (poisoning pool shim: recycled buffers are poisoned and quarantined, foreign/double frees and writes after recycle are events) and configuration B (real pool plus a co-tenant that between any two operations takes buffers from every relevant size class, checks their address ranges against all live slices and caller memory, and overwrites them). Non-trivial iff a slice is retained across a request > 4096 (growth) or a caller-owned buffer is involved; distinct by (configuration, ops, source/initial-slice class).",
 		Required: []string{"reader histories retaining a slice across a growth", "caller-owned reader buffers", "caller-owned writer targets", "co-tenant buffers scribbled", "pool frees (shim)", "skip-decoder results retained", "reader-skip-decoder growth sequences", "growth ladders"},
 		Quick:    []job{{"plain", 8}, {"poison", 8}},
-		Thorough: []job{{"plain", 16}, {"poison", 16}, {"go126", 4}},
+		Thorough: []job{{"gcstress", 4}, {"plain", 16}, {"poison", 16}, {"go126", 4}},
 	},
 	"C01": {
 		Level:    "exploration",
 		Rule:     "case = sequence of 1..40 codec values (bool, byte, i16, i32, i64, double, string, binary, field begin/stop, map/list/set begin with sizes up to 2^31-1, message begin) written by the in-place writer (into an exact-length canary-margined buffer), the appending writer (onto a random prefix/capacity) and the stream writer (over a recording io.Writer and over a bytes writer), each compared byte-for-byte with an independent big-endian encoder and with the advertised length; then decoded by the buffer reader at running offsets (input in a guard-page arena) and by the stream reader over a hostile source (6 fragmentation schedules, zero-byte reads, EOF with data) and over a bytes reader. Exhaustive over all bool/i8/i16 (thorough: all 2^32 i32), boundary string lengths (thorough: every length 0..9000). Non-trivial iff >= 2 kinds, or a string > 4000 bytes, or a fragmenting schedule; distinct by (values, schedule).",
 		Required: []string{"values round-tripped", "stream bytes compared", "string-length cases"},
 		Quick:    []job{{"plain", 8}},
-		Thorough: []job{{"plain", 16}, {"race", 4}},
+		Thorough: []job{{"gcstress", 4}, {"plain", 16}, {"race", 4}},
 	},
 	"C06": {
 		Level:    "exploration",
 		Rule:     "case = header parameter set (flags, sequence id, protocol id incl. unsupported ones, int/str info maps of 0..200 entries with empty/binary/long keys and values, ACL-token key alone or with others) + payload length, encoded by EncodeToBytes and by Encode over a buffered writer, checked by a strict independent layout parser, decoded by an independent decoder and by the library (bytes-backed and over a hostile fragmenting source); header-info sizes swept exactly over 65536-16..65536+16 in three shapes, every padding residue, all flags (stride in quick), all 256 protocol ids, oversize keys/values/entry counts, parameters beyond 4 GiB, and a writer that refuses its k-th call for every k (Encode must fail). Non-trivial iff >= 1 info entry or size within 64 of the limit; distinct by parameter set + payload length.",
 		Required: []string{"frames encoded", "frames round-tripped", "encode errors", "frames with padding", "size-limit cases", "frames with exactly 65536 info bytes", "unsupported-protocol frames"},
 		Quick:    []job{{"plain", 8}},
-		Thorough: []job{{"plain", 16}},
+		Thorough: []job{{"gcstress", 4}, {"plain", 16}},
 	},
 	"C10": {
 		Level:    "exploration",
 		Rule:     "case = hostile frame bytes decoded by Decode over a bytes reader at two guard-page placements, DecodeFromBytes, and Decode over a fragmenting source, each compared with an independent decoder (reject reasons: magic, declared size outside 2..65536, protocol id, transform count, incomplete section, unknown info id) and, on success, field by field incl. HeaderLen/PayloadLen/maps and bytes consumed. Exhaustive: all 65536 header-size fields x 3 bodies, all flags, all magic half-words, all protocol/info id bytes, all transform counts, string lengths overshooting the info block by 1..4 with and without payload; random: section orders/repeats/interleaved padding with truncations and byte perturbations. Non-trivial: every case (the magic check alone decides only the all-magic stage); distinct by frame bytes.",
 		Required: []string{"frames accepted", "frames rejected", "size fields >= 0x4000 tried", "overshooting string lengths", "full truncation sweeps"},
 		Quick:    []job{{"plain", 8}},
-		Thorough: []job{{"plain", 16}, {"asan", 4}, {"fuzz", 3}},
+		Thorough: []job{{"gcstress", 4}, {"plain", 16}, {"asan", 4}, {"fuzz", 3}},
 	},
 	"C07": {
 		Level:    "exploration",
 		Rule:     "case = load/reload/query history on StrMap[int], StrMap[struct] and Str2Str instances: key sets of sizes around every entry of the prime table (0..1000, thorough up to 2*10^5) with adversarial key shapes (empty key, all proper prefixes of a long key, shared prefixes/suffixes, one-bit near-duplicates, mixed and equal lengths), LoadFromMap/LoadFromSlice sequences growing and shrinking one instance, failed (length-mismatch) loads in between, never-loaded and empty maps; probes = every key, key +/- one byte, prefixes, suffixes, bit-flips, keys of earlier rounds, random strings; every answer (Get, Len, Item enumeration) compared with a Go map. Fresh instances per case give fresh hash seeds. Non-trivial iff n >= 2 or a reload or an empty/prefix key; distinct by case index (hash seeds differ per instance).",
 		Required: []string{"map queries compared", "failed loads checked", "never-loaded/empty cases", "load cycles"},
 		Quick:    []job{{"plain", 8}},
-		Thorough: []job{{"plain", 16}, {"race", 4}},
+		Thorough: []job{{"gcstress", 4}, {"plain", 16}, {"race", 4}},
 	},
 	"C11": {
 		Level:    "exploration",
 		Rule:     "case = Base / BaseResp / ApplicationException value (strings of 0..9000 bytes, nil / empty / 1..50-entry maps): BLength vs FastWrite vs FastWriteNocopy(nil) vs FastRead lengths, bytes vs an independent encoder (maps <= 1 entry), value reproduced; then the same value encoded independently with the known fields in a random permutation and 0..6 unknown fields of any type (generated value trees; ids equal to known ids with another type, ids colliding modulo 256, whole int16 range) inserted at every gap, followed by trailing garbage: FastRead must return the exact stream length and undisturbed known fields. Inputs sit in a guard-page arena. Non-trivial iff >= 1 unknown field; distinct by (struct kind, field order, bytes).",
 		Required: []string{"structs checked", "structs with unknown fields"},
 		Quick:    []job{{"plain", 8}},
-		Thorough: []job{{"plain", 16}},
+		Thorough: []job{{"gcstress", 4}, {"plain", 16}},
 	},
 	"C12": {
 		Level:    "exploration",
 		Rule:     "case = (method name of 0..70000 arbitrary bytes, message type, sequence id) through WriteMessageBegin / AppendMessageBegin / BufferWriter.WriteMessageBegin vs an independent encoder and MessageBeginLength, read back by Binary.ReadMessageBegin (guard-page arena) and BufferReader.ReadMessageBegin over a fragmenting source; all 65536 message types; all 65536 first-word high halves x 5 low halves (must be accepted iff 0x8001, else BAD_VERSION on both readers); every truncation point and negative name lengths (both readers and UnmarshalFastMsg must fail); MarshalFastMsg -> UnmarshalFastMsg round trips with BaseResp payloads; EXCEPTION messages must surface as *ApplicationException with type id and text and leave the caller's struct untouched (also when the exception body is cut at any point: an error, nothing decoded). Every case is non-trivial; distinct by its parameters.",
 		Required: []string{"envelopes round-tripped", "first words tried", "truncation sweeps", "messages round-tripped", "exception messages"},
 		Quick:    []job{{"plain", 8}},
-		Thorough: []job{{"plain", 16}},
+		Thorough: []job{{"gcstress", 4}, {"plain", 16}},
 	},
 	"C13": {
 		Level:    "exploration",
 		Rule:     "case = sequence of 1..5 typed fields (generated value trees of every type, nesting <= 5, any field ids, canonical booleans) encoded by the independent encoder: ConvertUnknownFields must yield exactly the generator-built expected tree (IDs, Type, KeyType/ValType only on containers, element IDs = index, doubles by bit pattern), UnknownFieldsLength must equal the byte count, WriteUnknownFields must reproduce the bytes, and the expected tree must survive write-then-convert. Plus the full 11x11 grid of (container field, following sibling) pairs inside nested structs under 4 wrappings and the container x key x value x size grid. Non-trivial iff a container is present; distinct by field trees.",
 		Required: []string{"field sequences round-tripped", "sibling-tag cases", "combo-grid cases"},
 		Quick:    []job{{"plain", 8}},
-		Thorough: []job{{"plain", 16}},
+		Thorough: []job{{"gcstress", 4}, {"plain", 16}},
 	},
 	"C15": {
 		Level:    "exploration",
 		Rule:     "case = sequence of 1..8 WriteStringNocopy/WriteBinaryNocopy calls with lengths {0,1,100,4094,4095,4096,4097,8192,12288,20000} (exhaustive over all triples) into a linear buffer that is a window of a larger block (spare capacity 0/1/64), with a recording direct writer whose pieces are spliced independently at len(buf)-remainCap and compared with the copying-path bytes from an independent encoder; returned offset + direct pieces must equal the advertised length; nil writer must be byte-identical to the copying path; Base/BaseResp with every small/large field combination (byte compare when the map has <= 1 entry, decode compare otherwise), FastMarshal. Non-trivial iff >= 1 value >= 4096 with a writer attached; distinct by (length vector, API sequence, spare, writer).",
 		Required: []string{"direct pieces spliced", "nocopy sequences", "nil-writer sequences", "struct cases"},
 		Quick:    []job{{"plain", 8}},
-		Thorough: []job{{"plain", 16}},
+		Thorough: []job{{"gcstress", 4}, {"plain", 16}},
 	},
 	"C16": {
 		Level:    "exploration",
 		Rule:     "case = run of strings/binaries decoded by thrift.Binary (lengths over every span-allocator class: 0, <128, every power of two +-1 up to 128 KiB, larger; runs of 200..800 values wrapping the 1 MiB spans) with the span cache off and on; every returned []byte is appended to and overwritten, then the input buffer is overwritten: input, siblings and snapshots must stay intact, and returned slices (incl. spare capacity) must not overlap the input; stream reader: values of a first message retained across Release, Recycle, pool reuse by a co-tenant and the decoding of a second message through a recycled BufferReader; decoded Base / ApplicationException / unknown-field trees after their input is overwritten. Non-trivial iff length >= 1; distinct by (lengths, reader kind, span-cache setting).",
 		Required: []string{"buffer-decoded values attacked", "stream-decoded values attacked", "structs attacked", "bytes decoded in runs"},
 		Quick:    []job{{"plain", 8}},
-		Thorough: []job{{"plain", 16}, {"race", 4}, {"go126", 4}},
+		Thorough: []job{{"gcstress", 4}, {"plain", 16}, {"race", 4}, {"go126", 4}},
 	},
 	"C17": {
 		Level:    "exploration",
 		Rule:     "case = (entry point, malformed input) classified by the independent grammar oracle into cause sets {TRUNCATED, NEGATIVE, UNKNOWN_TYPE, DEPTH}: the error of Binary.Skip / Binary.Read* / ReadMessageBegin must be (or wrap) a *ProtocolException whose TypeId is in the accepted set (TRUNCATED, UNKNOWN_TYPE -> INVALID_DATA; NEGATIVE -> NEGATIVE_SIZE; bad first word -> BAD_VERSION; nesting >= 64 -> also DEPTH_LIMIT; simultaneous causes -> any). Inputs: grammar-alphabet strings (exhaustive), mutated encodings, negative sizes in every size position for all 11x11 element types, nesting 60..70. Stream reader: valid streams cut at every position with every injected error value (io.EOF, io.ErrUnexpectedEOF, two custom) with/after the final data: errors.Is(err, sourceErr) must hold for every Read*/Skip. Every case is a failure-class instance; distinct by (input, type).",
 		Required: []string{"skip failures classified", "reader failures classified", "message-begin failures classified", "stream failures classified", "negative-size cases", "source-error sweeps"},
 		Quick:    []job{{"plain", 8}},
-		Thorough: []job{{"plain", 16}},
+		Thorough: []job{{"gcstress", 4}, {"plain", 16}},
 	},
 	"C18": {
 		Level:    "exploration",
 		Rule:     "case = error term built from {plain, fmt.Errorf(%w) chain, transport, protocol, application, foreign exception with TypeId(), foreign type embedding *ApplicationException, protocol exception wrapping any of these} with type ids over the default-message table, boundaries and random int32, empty and colliding texts, and a prefix (empty or not): PrependError must keep the exception kind class, the type id and produce prefix+text; NewProtocolExceptionWithErr must be the identity on protocol exceptions and otherwise keep errors.Unwrap(result)==cause and errors.Is(result, cause); errors.Is(receiver, target) over all ordered pairs of a pool (with look-alikes of equal / off-by-one type id and text in every kind) must equal the statement's definition evaluated by a small recursive model. Exhaustive kind x id x empty/non-empty text x empty/non-empty prefix grid. Every case is non-trivial; distinct by term description.",
 		Required: []string{"prepend cases", "wrappers built", "is-pairs compared", "is-pairs matching"},
 		Quick:    []job{{"plain", 8}},
-		Thorough: []job{{"plain", 16}},
+		Thorough: []job{{"gcstress", 4}, {"plain", 16}},
 	},
 	"C19": {
 		Level:    "exploration",
 		Rule:     "case = random history of {Write, Read, ReadByte, Reset/Close, Truncate, IsOpen/Open/Flush} applied through the transport handle or the *bytes.Buffer handle of a buffer transport (created by NewBufferTransport or NewDefaultTransport) whose bytes.Buffer is embedded between a neighbouring buffer and live data; after every step transport, buffer and a plain bytes.Buffer model must agree (contents, Len, RemainingBytes) and adjacent memory must be intact; generic transport RemainingBytes for ReadableLen values {minInt..maxInt} and objects without ReadableLen; registered callbacks must receive the identical arguments and return the callback's result, unregistered ones three specific errors. Non-trivial iff both handles are used; distinct by history.",
 		Required: []string{"buffer histories", "generic transport cases", "callback cases"},
 		Quick:    []job{{"plain", 4}, {"race", 2}},
-		Thorough: []job{{"plain", 16}, {"race", 4}},
+		Thorough: []job{{"gcstress", 4}, {"plain", 16}, {"race", 4}},
 	},
 	"C20": {
 		Level:    "exploration",
 		Rule:     "case = (conversion variant: the compiled go1.21+ file and the legacy pre-go1.21 file copied from /repo at check time, input shape): every length 0..300 and classes up to 1 MiB, byte slices with spare capacity 0/1/48, substrings at several offsets of a larger string backed by a mutable heap block with canary bytes; checks content, length, shared data pointer (a write through the slice is visible through the string), cap(StringToBinary(s)) == len(s), and that append(StringToBinary(s), ...) leaves the enclosing memory unchanged; nil / empty / zero-length-subslice inputs must not panic and must yield empty results. Non-trivial iff len >= 1 or the nil/empty distinction; distinct by (variant, shape).",
 		Required: []string{"conversions checked", "empty/nil inputs checked"},
 		Quick:    []job{{"plain", 2}, {"race", 2}},
-		Thorough: []job{{"plain", 4}, {"race", 2}, {"asan", 2}, {"go126", 2}},
+		Thorough: []job{{"gcstress", 4}, {"plain", 4}, {"race", 2}, {"asan", 2}, {"go126", 2}},
 	},
 	"C14": {
 		Level:       "exploration",
@@ -155,7 +155,7 @@ var plans = map[string]plan{
 		Required:    []string{"pooled objects used by >= 2 goroutines", "executions", "cycles writer+reader", "cycles skip-decoders", "cycles ttheader", "cycles binary+fastcodec", "cycles shared-maps"},
 		Assumptions: []string{"absence of a race report says nothing about interleavings that were not produced"},
 		Quick:       []job{{"race", 4}, {"plain", 2}},
-		Thorough:    []job{{"race", 12}, {"yield", 6}, {"plain", 6}, {"go126-race", 6}},
+		Thorough:    []job{{"gcstress", 4}, {"race", 12}, {"yield", 6}, {"plain", 6}, {"go126-race", 6}},
 	},
 }
 
